@@ -417,6 +417,17 @@ func (fr *Frame) enterLoop(li *loopInfo, b *ssa.BasicBlock, st *State, in []edge
 	lws := u.localWrites
 	if ws["*"] {
 		fr.havocAllKeepLocals(hs)
+		// havoc-everything leaves the ghost trace alone (an unknown callback emits nothing of ours): what the body
+		// itself emits, and the ghost maps it writes, change from one iteration to the next all the same
+		var evs []string
+		for _, c := range sortedKeys(ws) {
+			if strings.HasPrefix(c, "ev:") {
+				evs = append(evs, c[3:])
+			} else if isGhostTrace(c) {
+				u.havocComp(hs, c)
+			}
+		}
+		u.havocEvents(hs, evs...)
 	} else {
 		// local variables allocated before the loop and assigned in it: only their own location is havocked
 		for _, lw := range lws {
